@@ -129,10 +129,11 @@ P['C14']['units'] = ['kani:floats', 'native:C14']
 P['C15']['units'] = ['verus', 'native:C15']
 P['C01']['units'] = ['verus', 'native:C01']
 P['C06']['units'] = ['verus', 'native:C06']
+P['C07']['units'] = ['verus', 'native:C07']
 # native:<P> = regression replays of the repaired defects (and a few scenario tests) appended to the real files in a scratch
 # copy: bounded, never counted as proof, but a fixed defect that returns is reported with its concrete input even where no
 # deductive engine reaches the function (D2, D5).
-for _p in ('C13', 'C03', 'C14', 'C15', 'C01', 'C06'):
+for _p in ('C13', 'C03', 'C14', 'C15', 'C01', 'C06', 'C07'):
     P[_p]['thorough_units'] = [u for u in P[_p].get('thorough_units', []) if not u.startswith('native:')]
 json.dump(c, open(os.path.join(VERIF, 'props.json'), 'w'), indent=1)
 print('ok')
